@@ -107,8 +107,29 @@ class Analyzer:
         if f.qname in self._callees:
             return self._callees[f.qname]
         out = set()
+        called = set()
         for call in self.prog.calls_in(f):
             out |= self.call_targets(f, call)
+            called.add(id(call.func))
+        # function values passed around (retry.run(repo.push_all, ...),
+        # Thread(target=worker), map(f, xs)): may-call edges as well
+        for call in self.prog.calls_in(f):
+            for a in list(call.args) + [k.value for k in call.keywords]:
+                if id(a) in called:
+                    continue
+                if isinstance(a, ast.Name):
+                    q = self.prog.resolve_dotted(f.module, a.id, f)
+                    if q in self.prog.funcs:
+                        out.add(q)
+                elif isinstance(a, ast.Attribute):
+                    q = self.prog.resolve_expr(f.module, a, f)
+                    if q in self.prog.funcs:
+                        out.add(q)
+                    elif q is None:
+                        for m in self.prog.methods_named(a.attr):
+                            if m.module.name != 'bert_e.git_host.mock' and \
+                                    not is_property(m):
+                                out.add(m.qname)
         self._callees[f.qname] = out
         return out
 
@@ -129,7 +150,27 @@ class Analyzer:
             if init is not None:
                 out.add(init.qname)
         elif c[0] == 'method':
+            # by-name over-approximation, minus two frozen facts:
+            # (1) code of the git_host package never holds local git
+            # objects (its interfaces take and return strings / host
+            # objects only; bitbucket and github import nothing from
+            # bert_e.lib.git);
+            # (2) bert_e.git_host.mock is the in-memory test double of a git
+            # host (selected only by repository_host == 'mock'); it keeps a
+            # fake remote with local git commands and is not a candidate
+            # implementation when effects of the robot are summarised.
+            host_caller = f.module.name.startswith('bert_e.git_host')
+            allowed = byname_filter(c[1], src(c[2]))
             for m in self.prog.methods_named(c[1]):
+                if allowed is not None and m.cls.name not in allowed:
+                    continue
+                if m.module.name == 'bert_e.git_host.mock' and \
+                        f.module.name != 'bert_e.git_host.mock':
+                    continue
+                if host_caller and (
+                        m.module.name == 'bert_e.lib.git' or
+                        m.module.name.endswith('gitwaterflow.branches')):
+                    continue
                 out.add(m.qname)
             # properties are not calls; module-level functions of that name
             # are not reachable through an attribute call on a value
@@ -276,6 +317,57 @@ class Analyzer:
         for t in self.test_nodes(f, pred):
             out.extend(c.branch(t, value))
         return out
+
+
+# (3) method names shared with builtin containers / third-party objects: the
+# receiver decides.  Frozen table, read off every call site of these names
+# on the pinned tree (receivers not listed are dicts, lists, strings,
+# requests sessions, marshmallow schemas, queue.Queue, Flask app).
+_BYNAME = {
+    'get': [(r'(BUILD_STATUS_CACHE|query_cache)\[', {'LRUCache'}),
+            (r'(^|\.)client$', {'Client'}),
+            (r'(^|\.)settings$', {'SettingsDict'})],
+    'set': [(r'(BUILD_STATUS_CACHE|query_cache)\[', {'LRUCache'})],
+    'update': [(r'(^|\.)settings$', {'SettingsDict'})],
+    'setdefault': [(r'(^|\.)settings$', {'SettingsDict'})],
+    'validate': [(r'cascade|queue', {'BranchCascade', 'QueueCollection'})],
+    'load': [],
+    'lower': [],
+    'put': [(r'(^|\.)client$', {'Client'})],
+    'post': [(r'(^|\.)client$', {'Client'})],
+    'delete': [(r'queue', {'QueueCollection'}),
+               (r'(^|\.)client$', {'Client'}),
+               (r'^(repo|webhook|comment)$',
+                {'BitBucketObject', 'AbstractComment', 'Comment',
+                 'Repository', 'AbstractGitHostObject'})],
+    'remove': [(r'^prs$', set())],   # list.remove in QueueCollection
+    'pop': [], 'items': [], 'keys': [], 'values': [], 'append': [],
+    'add': [], 'format': [], 'split': [], 'join': [], 'strip': [],
+    'index': [], 'sort': [], 'clear': [], 'copy': [], 'extend': [],
+    'insert': [], 'encode': [], 'decode': [], 'replace': [],
+}
+_BYNAME_DEFAULT_ALL = {'remove'}   # unlisted receivers: every definition
+
+
+def byname_filter(name, recv):
+    """None = no restriction; else the set of class names that may define
+    the by-name target for this receiver text."""
+    rules = _BYNAME.get(name)
+    if rules is None:
+        return None
+    for rx, classes in rules:
+        if re.search(rx, recv):
+            return classes
+    return None if name in _BYNAME_DEFAULT_ALL else set()
+
+
+def is_property(f):
+    for d in f.decorators:
+        dd = dotted(d) or ''
+        if dd == 'property' or dd.endswith('.setter') or \
+                dd.endswith('.getter'):
+            return True
+    return False
 
 
 def is_generator(f):
